@@ -84,6 +84,7 @@ type Pipe struct {
 	// nothing had happened (an expired read deadline that the application
 	// extends).
 	Transient     [][2]int
+	TransientData bool // the failing Read hands over a few bytes together with the error (only for ranges inside a payload)
 	transientDone bool
 	ZeroReads     bool // now and then a Read returns (0, nil): nothing happened, legal for an io.Reader (never twice in a row)
 	lastZero      bool
@@ -202,6 +203,14 @@ func (p *Pipe) Read(b []byte) (int, error) {
 			if p.pos >= rg[0] && p.pos < rg[1] {
 				p.transientDone = true
 				p.R.Fault("transient_read_error")
+				if p.TransientData {
+					k := minInt(minInt(len(b), rg[1]-p.pos), 1+p.R.T.Int(sim.LSeg, 5))
+					copy(b, p.In[p.pos:p.pos+k])
+					p.pos += k
+					p.R.D.Add(uint64(p.pos)<<8 | 0x02)
+					p.R.Fault("transient_read_error_with_data")
+					return k, ErrInjectedNet
+				}
 				return 0, ErrInjectedNet
 			}
 		}
